@@ -290,3 +290,74 @@ contract(SOL + "infiltration.py", "infiltration",
          assigns=["FluxOut[*]"],
          options=dict(merge_limit=14, reads_only_if={"FieldMngt_zBund": "FieldMngt_Bunds", "IrrMngt_AppEff": "growing_season"}),
          props=("C01", "C02", "C03", "C04", "C12", "C16", "C20"))
+
+# ----------------------------------------------------------------------------- check_groundwater_table
+WF_ZMID = ["forall(j, 0, n, prof.zMid[j] == prof.dzsum[j] - prof.dz[j] / 2)"]
+_XMAX = "ite(prof.th_fc[{j}] <= 0.1, 1, ite(prof.th_fc[{j}] >= 0.3, 2, exp((2 + 0.3 * (prof.th_fc[{j}] - 0.1) / 0.2) * log(10)) / 100))"
+_FAR = "(z_gw - prof.zMid[n-1] >= " + _XMAX.format(j="n-1") + ")"
+_CGT_B = "forall(j, {lo}, n, prof.th_fc[j] <= thfcAdj[j] and thfcAdj[j] <= prof.th_s[j])"
+contract(SOL + "check_groundwater_table.py", "check_groundwater_table",
+         params=dict(prof=OBJ("SoilProfile"), NewCond_zGW="Real", NewCond_th=_PA, NewCond_th_fc_Adj=_PA, water_table_presence="Int", z_gw="Real"),
+         ghost=GHOST_N,
+         requires=WF() + WF_ZMID + ["length(prof.Comp) == n", "water_table_presence == 0 or water_table_presence == 1",
+                                    "implies(water_table_presence == 1, z_gw >= 0)"],
+         returns=[("fcAdj", _PA), ("WTinSoil", "Bool"), ("zGW", "Real")],
+         ensures=[
+             ("C19.cgt_fcadj_range", "implies(water_table_presence == 1, forall(j, 0, n, prof.th_fc[j] <= fcAdj[j] and fcAdj[j] <= prof.th_s[j]))"),
+             ("C19.cgt_far_table_is_fc", "implies(water_table_presence == 1 and %s, forall(j, 0, n, fcAdj[j] == prof.th_fc[j]))" % _FAR),
+             ("C19.cgt_table_in_soil", "implies(water_table_presence == 1, WTinSoil == (prof.zMid[n-1] >= z_gw))"),
+             ("C19.cgt_follows_observation", "implies(water_table_presence == 1, zGW == z_gw)"),
+             ("C12.cgt_fresh", "implies(water_table_presence == 1, fresh(fcAdj) and length(fcAdj) == n)"),
+             ("C19.cgt_no_table_passthrough", "implies(water_table_presence == 0, same(fcAdj, NewCond_th_fc_Adj))"),
+         ],
+         loops={
+             "L1": dict(invariant=[
+                 ("range", "-1 <= compi and compi <= n - 1"),
+                 ("bounds", _CGT_B.format(lo="compi + 1")),
+                 ("far", "implies(%s, compi == n - 1 or (compi == -1 and forall(j, 0, n, thfcAdj[j] == prof.th_fc[j])))" % _FAR.replace("z_gw", "NewCond_zGW")),
+             ], decreases="compi + 1"),
+             "L1.1": dict(invariant=[
+                 ("range", "0 <= compi and compi <= n - 1"),
+                 ("set", "forall(j, 0, ii, thfcAdj[j] == prof.th_fc[j])"),
+                 ("bounds", _CGT_B.format(lo="compi + 1")),
+             ]),
+         },
+         assigns=[],
+         props=("C19", "C12", "C16"))
+
+# ----------------------------------------------------------------------------- capillary_rise
+_TH0 = "old(NewCond.th[j])"
+_CR_ACT = "(wsum(prof.dz, {new}.th, n) - old(wsum(prof.dz, NewCond.th, n)))"
+contract(SOL + "capillary_rise.py", "capillary_rise",
+         params=dict(prof=OBJ("SoilProfile"), Soil_nLayer="Int", Soil_fshape_cr="Real", NewCond=OBJ("InitialCondition"), FluxOut=_PA,
+                     water_table_presence="Int"),
+         ghost=GHOST_N,
+         requires=WF() + WF_ZMID + [
+             WATER_INV("NewCond.th"),
+             "forall(j, 0, n, prof.th_fc[j] <= NewCond.th_fc_Adj[j] and NewCond.th_fc_Adj[j] <= prof.th_s[j])",
+             "length(prof.Comp) == n", "water_table_presence == 0 or water_table_presence == 1",
+             "prof.Layer[n-1] == Soil_nLayer",
+             "implies(water_table_presence == 1, forall(j, 0, n, prof.aCR[j] != 0))",
+         ],
+         returns=[("Out", ("Param", "NewCond")), ("CrTot", "Real")],
+         ensures=[
+             ("C01.capillary_rise_mass", "abs(CrTot - %s) <= 0.05 * prof.dzsum[n-1]" % _CR_ACT.format(new="Out")),
+             ("C04.capillary_rise_sign", "CrTot >= 0"),
+             ("C03.capillary_rise_lower", "forall(j, 0, n, Out.th[j] >= %s)" % _TH0),
+             ("C03.capillary_rise_upper", "forall(j, 0, n, Out.th[j] <= prof.th_s[j])"),
+             ("C19.capillary_rise_not_above_fcadj", "forall(j, 0, n, Out.th[j] <= max(%s, NewCond.th_fc_Adj[j]))" % _TH0),
+             ("C19.capillary_rise_zero_without_table", "implies(water_table_presence == 0, CrTot == 0 and forall(j, 0, n, Out.th[j] == %s))" % _TH0),
+         ],
+         loops={
+             "L3": dict(invariant=[
+                 ("range", "-1 <= compi and compi <= n - 1"),
+                 ("zbot", "zBot == ite(compi >= 0, prof.dzsum[compi], 0)"),
+                 ("signs", "MaxCR >= 0 and WCr >= 0"),
+                 ("mass", "abs(WCr - %s) <= 0.05 * (prof.dzsum[n-1] - zBot)" % _CR_ACT.format(new="NewCond")),
+                 ("monotone", "forall(j, 0, n, NewCond.th[j] >= %s)" % _TH0),
+                 ("upper", "forall(j, 0, n, NewCond.th[j] <= max(%s, NewCond.th_fc_Adj[j]))" % _TH0),
+                 ("frame", "forall(j, 0, compi + 1, NewCond.th[j] == %s)" % _TH0),
+             ], decreases="compi + 1"),
+         },
+         assigns=["NewCond.th[*]"],
+         props=("C01", "C03", "C04", "C19", "C12", "C16"))
